@@ -40,7 +40,7 @@ def gen_problem(rng, max_w=4, max_h=4, max_vertices=10, faults=True):
     for _ in range(rng.randint(0, min(8, 2 * nv))):
         src = rng.choice(ids)
         sinks = [rng.choice(ids) for _ in range(rng.randint(1, min(4, nv)))]
-        nets.append(dict(source=src, sinks=sinks, weight=rng.choice([1.0, 2.0, 0.5])))
+        nets.append(dict(source=src, sinks=sinks, weight=rng.choice([1.0, 2.0, 0.5, 0.1, 0.3, 1.0 / 3])))
     cons = []
     if rng.random() < 0.5:
         cons.append(["reserve", "cores", 0, 1, None])
